@@ -6,7 +6,7 @@ from ref import wire as W
 
 ID = "C08"
 LEVEL = "fault_enumeration"
-TECHNIQUE = "deterministic simulation with enumerated stall points: a scripted peer follows a legal exchange up to byte offset k, then goes silent with the connection open; bounded-liveness oracle in virtual time"
+TECHNIQUE = "deterministic simulation with enumerated stall points: a scripted peer follows a legal exchange up to byte offset k, then goes silent with the connection open (optionally also no longer reading, under simulated TCP flow control), or keeps flooding after a local abort; bounded-liveness oracle in virtual time"
 RULE = (
     "a case = one reference exchange (associate + C-ECHO / C-STORE with data set / C-FIND, release) in one role (real acceptor "
     "or real requestor), with the scripted peer stopping after exactly k bytes of its own output (k enumerated over the whole "
@@ -15,6 +15,9 @@ RULE = (
     "thread of the real side finishes within 2x(acse+dimse+network+connection timeouts)+0.5 s of virtual time after the peer's "
     "last byte, and the local socket is closed; non-trivial = the stall happened strictly inside the exchange (0 < k < total); "
     "distinct = distinct (exchange, role, k, schedule digest)"
+    " Also: the stalled peer has stopped reading and the local C-STORE is larger than the connection's buffering (send() blocks, flow "
+    "control), and: the acceptor's handler aborts while the peer keeps the receive path busy for five ARTIM periods (each recv() costs "
+    "1 ms of virtual time) - every thread must be gone within ARTIM + margin of the abort"
 )
 STUBS = ["scripted RawPeer (the stalling peer)"]
 EXHAUSTIVE = {"thorough": True, "quick": False}
